@@ -64,6 +64,18 @@ CLAIMED = {
               "determinism and autograd gradient equality are outside the claim; batch-mean == full-batch loss is decided by "
               "the engine-S stage when present (see evidence)"),
         design_ref="DESIGN.md §5 C09"),
+    "C10": dict(
+        engine="S",
+        technique="term-valued symbolic execution of the real torch constraint code on symbolic raw parameters (angle() as tied angle atoms, exp(i theta) as unit vectors, clamp as ite, argsort by forking); admissibility claims decided by z3 (QF_NRA)",
+        text=("bounded model checking by symbolic execution over all raw parameter values: complex objects have |obj| <= 1 (also with "
+              "a field-of-view mask in [0,1]), pure-phase objects |obj| = 1, potential objects are non-negative and real, "
+              "identical_slices ties all slices, re-applying the constraint keeps the amplitude; Gram-Schmidt output modes are "
+              "pairwise orthogonal and in descending intensity order; _apply_weights gives total diffraction intensity == mean "
+              "intensity and mode intensities proportional to the requested weights"),
+        note=("real arithmetic; grids <= 2x2, <= 3 slices; orthogonality is decided for 2 real-valued modes x 2 pixels only "
+              "(nlsat does not finish for complex or more modes) and the 'same multiset of intensities' clause returns unknown "
+              "and is not claimed; smoothing filters, tomography object models are outside"),
+        design_ref="DESIGN.md §5 C10"),
     "C11": dict(
         engine="X",
         technique="CrossHair symbolic execution of the real Vector API with selector-chosen operations/index expressions; list-of-rows reference model and structural invariants as post-conditions",
